@@ -392,6 +392,26 @@ func (m *rcl) condSets(cond ssa.Value, depth int) (v ssa.Value, t, f aset, ok bo
 			v, t, f, ok = m.condSets(x.X, depth+1)
 			return v, f, t, ok
 		}
+		// a read of a constant boolean table at the rune: true exactly on the runes whose
+		// entry is set (each of them is an atom of its own)
+		if x.Op == token.MUL {
+			if ia, isIA := x.X.(*ssa.IndexAddr); isIA {
+				if g, isG := ia.X.(*ssa.Global); isG {
+					idx := ia.Index
+					if cv, isCv := idx.(*ssa.Convert); isCv {
+						idx = cv.X
+					}
+					if tab, good := constTableOf(m.w, g); good && isRuneType(idx.Type()) {
+						for r, val := range tab {
+							if val.k == kBool && val.b {
+								t = t.or(m.ra.single(rune(r)))
+							}
+						}
+						return idx, t, m.ra.all.andNot(t), true
+					}
+				}
+			}
+		}
 	case *ssa.BinOp:
 		switch x.Op {
 		case token.EQL, token.NEQ, token.LSS, token.LEQ, token.GTR, token.GEQ:
@@ -429,6 +449,7 @@ func (m *rcl) condSets(cond ssa.Value, depth int) (v ssa.Value, t, f aset, ok bo
 		if cal == nil || len(x.Call.Args) != 1 || !isRuneType(x.Call.Args[0].Type()) {
 			return
 		}
+		_ = cal
 		if cal.Pkg != nil && cal.Pkg.Pkg.Path() == "unicode" {
 			if _, known := unicodePreds[cal.Name()]; known {
 				t = m.ra.predSet(cal.Name())
@@ -868,6 +889,16 @@ func engineRCL(w *World, tier string) *EngineResult {
 						switch x.Op {
 						case token.LSS, token.LEQ, token.GTR, token.GEQ:
 							bounds[c] = true
+						}
+					}
+				case *ssa.IndexAddr:
+					// a constant table indexed by a rune: every position that is set is a
+					// rune the lexer distinguishes
+					if g, ok := x.X.(*ssa.Global); ok {
+						if tab, good := constTableOf(w, g); good {
+							for r := range tab {
+								consts[rune(r)] = true
+							}
 						}
 					}
 				case *ssa.Call:
